@@ -36,6 +36,7 @@ META = {
 FLOORS = {"quick": (50_000_000, 60), "thorough": (10_000_000_000, 60)}
 
 SHARDS = [["rust"], ["c", "cpp"], ["csharp", "go", "moonbit", "d"]]
+SHARDS_THOROUGH = [["rust"], ["c"], ["cpp"], ["csharp"], ["go"], ["moonbit"], ["d"]]
 
 
 def run_mode(rep, mode, tier, seed, replay, tag):
@@ -44,31 +45,29 @@ def run_mode(rep, mode, tier, seed, replay, tag):
     work = vcommon.scratch_dir(tag)
     try:
         extra = []
-        shards = SHARDS
+        shards = SHARDS if tier == "quick" else SHARDS_THOROUGH
         if replay:
             r = replay.get("replay", {})
             b, i, x = r.get("backend"), r.get("instruction"), r.get("input")
             if b and i and x is not None:
                 # the recorded input is evaluated first for that (backend, instruction); the rest of the run is the normal one
                 extra = ["--replay-backend", str(b), "--replay-inst", str(i), "--replay-input", str(x)]
-        timeout = 900 if tier == "quick" else 5400
+        # thorough: the harness itself stops enumerating 2^32 domains after VERIF_EXPRSEM_BUDGET_S (default 2400 s)
+        # and finishes the remaining cases on the quick domains, so the watchdog is only a last resort
+        timeout = 900 if tier == "quick" else 7200
 
         def one(k):
             out = os.path.join(work, "r%d.json" % k)
             cmd = [exe, "--mode", mode, "--seed", str(seed), "--tier", tier, "--out", out,
                    "--backends", ",".join(shards[k]), "--scratch", os.path.join(work, "w%d" % k)] + extra
             sub = vcommon.Report(rep.prop)
-            env = vcommon.base_env({"VERIF_THREADS": str(max(2, vcommon.NPROC // (2 if tier == "quick" else 1)))})
+            env = vcommon.base_env({"VERIF_THREADS": str(max(2, vcommon.NPROC // 2))})
             vcommon.run_harness(sub, cmd, timeout=timeout, env=env, out_json=out,
                                 what="exprsem %s [%s]" % (mode, ",".join(shards[k])))
             return sub
 
-        if tier == "quick":
-            with concurrent.futures.ThreadPoolExecutor(max_workers=len(shards)) as ex:
-                subs = list(ex.map(one, range(len(shards))))
-        else:
-            # thorough: every shard uses all cores itself
-            subs = [one(k) for k in range(len(shards))]
+        with concurrent.futures.ThreadPoolExecutor(max_workers=len(shards)) as ex:
+            subs = list(ex.map(one, range(len(shards))))
         for sub in subs:
             _merge(rep, sub)
     finally:
